@@ -62,7 +62,12 @@ func (c *ClientCodec) Decode(response []byte, context *core.ClientContext) (resu
 			}
 			result = []interface{}{t.Indirect(p)}
 		default:
-			res := resp.Result.([]interface{})
+			res, ok := resp.Result.([]interface{})
+			if !ok {
+				// one value where several are declared: it is the first of them (the hprose codec reads
+				// a result that is not a list the same way); the type assertion alone would panic
+				res = []interface{}{resp.Result}
+			}
 			result = make([]interface{}, 0, len(res))
 			for i, r := range res {
 				if i >= n {
